@@ -21,6 +21,27 @@ def parseDec (s : String) : Option Nat :=
     | some a => if '0' ≤ c ∧ c ≤ '9' then some (a * 10 + (c.toNat - '0'.toNat)) else none
     | none => none) (some 0)
 
+/-- decimal with up to 10 digits (event ids far beyond `max_events`) -/
+def parseDec10 (s : String) : Option Nat :=
+  if s.isEmpty ∨ s.length > 10 then none
+  else s.toList.foldl (fun acc c => match acc with
+    | some a => if '0' ≤ c ∧ c ≤ '9' then some (a * 10 + (c.toNat - '0'.toNat)) else none
+    | none => none) (some 0)
+
+def parseAllDec10 (ws : List String) : Option (List Nat) :=
+  ws.foldr (fun w acc => match parseDec10 w, acc with
+    | some v, some l => some (v :: l)
+    | _, _ => none) (some [])
+
+/-- `stepper <maxEvents> <slots> <ev>...`: the real `Stepper::operator()(primaries)` on a fresh
+    problem (capacity 4096, order none): event ids are validated first -/
+def stepperOp (maxEv slots : Nat) (evs : List Nat) : String :=
+  let st := State.init ⟨slots, 4096, maxEv, .none⟩
+  match stepWith (evs.map fun e => ⟨e, 0, 0⟩) [] st with
+  | .ok s' => s!"stepper ok generated={s'.c.numGenerated} active={s'.c.numActive}"
+  | .error (.maxEvents, _) => "stepper error-max-events"
+  | .error _ => "stepper error-other"
+
 def showOpt : Option Nat → String
   | some n => toString n
   | none => "-1"
@@ -101,6 +122,13 @@ def driverStep (d : DState) (line : String) : DState × String :=
         let st := State.init ⟨slots, cap, maxEv, if o = 0 then .none else if o = 1 then .initCharge else .reindex⟩
         (⟨true, false, st, CelerVerif.Stack.Stack.new k⟩, s!"config ok stack {k} neutral 10" ++ dump st)
     | _, _, _, _, _ => (d, "bad-op")
+  | "stepper" :: a :: b :: evs =>
+    match parseDec a, parseDec b, parseAllDec10 evs with
+    | some maxEv, some slots, some evs =>
+      if maxEv < 1 ∨ maxEv > 64 ∨ slots < 1 ∨ slots > 64 ∨ evs.isEmpty ∨ evs.length > 16
+          ∨ ¬ evs.all (fun e => decide (e < 4294967295)) then (d, "bad-op")
+      else (d, stepperOp maxEv slots evs)
+    | _, _, _ => (d, "bad-op")
   | ws =>
     if ¬ d.ready then (d, "bad-op") else
     match ws with
@@ -119,7 +147,7 @@ def driverStep (d : DState) (line : String) : DState × String :=
         match insertPrimaries ps d.st with
         | .ok st => ({ d with st := st }, "insert ok" ++ dump st)
         | .error .capacity => (d, "insert error-capacity" ++ dump d.st)
-        | .error .notImplemented => (d, "insert error-not-implemented" ++ dump d.st)
+        | .error _ => (d, "insert error-not-implemented" ++ dump d.st)
     | ["efp"] => let st := extendFromPrimaries d.st; ({ d with st := st }, "efp ok" ++ dump st)
     | ["init"] => let st := initializeTracks d.st; ({ d with st := st }, "init ok" ++ dump st)
     | ["pre"] =>
